@@ -61,6 +61,8 @@ Inductive terminal :=
 | TCollectInto (t : target) (old : list Z)
 | TCount | TForEach
 | TReduceT (o : redop)
+| TSum | TMinT | TMaxT | TFold (id : Z) (o : redop)
+| TMinBy | TMaxBy | TMinKey (m : Z) | TMaxKey (m : Z)
 | TFind (q : filf) | TFindIx (q : filf) | TFirst | TFirstIx | TAny (q : filf) | TAll (q : filf).
 
 Inductive result :=
@@ -106,8 +108,31 @@ Record case := mkCase {
 Definition task_of (t : terminal) : ParTask :=
   match t with
   | TFind _ | TFindIx _ | TFirst | TFirstIx | TAny _ | TAll _ => TEarlyReturn
-  | TReduceT _ => TReduce
+  | TReduceT _ | TSum | TMinT | TMaxT | TFold _ _ | TMinBy | TMaxBy | TMinKey _ | TMaxKey _ => TReduce
   | _ => TCollect
+  end.
+
+(** fold / sum / min / max / *_by(_key) are [reduce] with a fixed operator (src/par_iter.rs);
+    [min_by]: Less | Equal => x;  [max_by]: Greater | Equal => x *)
+Definition red_family (t : terminal) : option (Z -> Z -> Z) :=
+  match t with
+  | TReduceT o => Some (run_red o)
+  | TSum => Some (fun x y => wrap64 (x + y))
+  | TMinT => Some Z.min
+  | TMaxT => Some Z.max
+  | TFold _ o => Some (run_red o)
+  | TMinBy => Some (fun x y => if x <=? y then x else y)
+  | TMaxBy => Some (fun x y => if y <=? x then x else y)
+  | TMinKey m => Some (fun x y => if (x mod m) <=? (y mod m) then x else y)
+  | TMaxKey m => Some (fun x y => if (y mod m) <=? (x mod m) then x else y)
+  | _ => None
+  end.
+(** what the wrapper does with the reduced option *)
+Definition red_wrap (t : terminal) (o : option Z) : result :=
+  match t with
+  | TSum => ROpt (Some (match o with Some v => v | None => 0 end))
+  | TFold id _ => ROpt (Some (match o with Some v => v | None => id end))
+  | _ => ROpt o
   end.
 
 (** the terminal's own predicate, as a logged filter with the identity [pid] *)
@@ -149,7 +174,11 @@ Definition finish (t : terminal) (pe : nat -> list (event Z)) (n : nat) (k : kin
   | TCollectX => RBag (res_colx pe wl)
   | TCount => RCount (res_cnt pe wl)
   | TForEach => match res_cnt pe wl with _ => RUnit end
-  | TReduceT o => ROpt (res_red pe (run_red o) wl)
+  | TReduceT _ | TSum | TMinT | TMaxT | TFold _ _ | TMinBy | TMaxBy | TMinKey _ | TMaxKey _ =>
+      match red_family t with
+      | Some f => red_wrap t (res_red pe f wl)
+      | None => RPanic
+      end
   | TFind _ | TFirst => ROpt (option_map snd (res_find pe wl))
   | TFindIx _ | TFirstIx => ROptIx (res_find pe wl)
   | TAny _ => RBool (match res_find pe wl with Some _ => true | None => false end)
@@ -164,7 +193,11 @@ Definition finish_seq (t : terminal) (tr : list (event Z)) (src : list Z) (p : p
   | TCollectX => (RBag (yields tr), calls tr)
   | TCount => (RCount (length (yields tr)), calls tr)
   | TForEach => (RUnit, calls tr)
-  | TReduceT o => (ROpt (reduce_list (run_red o) (yields tr)), calls tr)
+  | TReduceT _ | TSum | TMinT | TMaxT | TFold _ _ | TMinBy | TMaxBy | TMinKey _ | TMaxKey _ =>
+      (match red_family t with
+       | Some f => red_wrap t (reduce_list f (yields tr))
+       | None => RPanic
+       end, calls tr)
   | _ =>
       (* find: positions in order, stop at the first yield *)
       let fix go (i : nat) (l : list Z) : list (nat * Z) * option (nat * Z) :=
@@ -378,7 +411,11 @@ Definition iany_dead (s : isys) : bool :=
 (** which handle protocol a terminal's kernel uses: count / reduce / collect_x go through
     [into_con_iter_x] (first come), the index-reporting kernels keep the ticket order *)
 Definition ordered_of (t : terminal) : bool :=
-  match t with TCount | TForEach | TReduceT _ | TCollectX => false | _ => true end.
+  match t with
+  | TCount | TForEach | TReduceT _ | TCollectX
+  | TSum | TMinT | TMaxT | TFold _ _ | TMinBy | TMaxBy | TMinKey _ | TMaxKey _ => false
+  | _ => true
+  end.
 
 (** does this call list contain the panicking call? *)
 Definition hits (pt : option (nat * Z)) (l : list (nat * Z)) : bool :=
